@@ -1,6 +1,7 @@
 """C12 frequent items bounds bracket the truth (DESIGN.md section 5 C12): bookkeeping clauses."""
 import fi_rules as F
 import cowrite
+import generic_lints
 
 
 def run(facts, tier):
@@ -11,6 +12,7 @@ def run(facts, tier):
         ("bookkeeping", F.bookkeeping, 5, "update order; merge adds offsets and the total computed before the replay; emptiness considers total weight"),
         ("probe displacement", F.probe_displacement, 1, "hash_delete measures displacement with a wrapping step counter"),
         ("couplings", lambda fa: cowrite.obligations(fa, ['frequent_items_sketch', 'reverse_purge_hash_map']), 8, "fields that every mutator updates together (counters, extremes, cached values) are still updated together"),
+        ("duplicate operands", lambda fa: generic_lints.duplicate_conjuncts(fa, ('fi/',)), 2, "no logical chain tests the same operand twice (copy-paste of the wrong peer)"),
     ):
         o = f(facts)
         obs += o
